@@ -42,10 +42,12 @@ type World struct {
 	dialCount map[string]int
 	ChunkMode int // default read segmentation for new connections: 0 whole, 1 bytewise, 2 random
 	SendBuf   int // default capacity of a stream direction in bytes
-	UDP       UDPFaults
-	OnNewConn func(c *Conn)    // called (under no lock) for every new node-side stream connection
-	OnNewUDP  func(c *UDPConn) // called for every UDP socket dialled by the node
-	NodeConns []NodeConn       // node-side connections in the order they were made (dials, serial opens)
+	// SerialOpenLatency is how long a successful serial open takes (0 = no time)
+	SerialOpenLatency time.Duration
+	UDP               UDPFaults
+	OnNewConn         func(c *Conn)    // called (under no lock) for every new node-side stream connection
+	OnNewUDP          func(c *UDPConn) // called for every UDP socket dialled by the node
+	NodeConns         []NodeConn       // node-side connections in the order they were made (dials, serial opens)
 }
 
 // NodeConn describes one connection made by the node.
@@ -326,6 +328,11 @@ func (c *Conn) Read(p []byte) (int, error) {
 			rec("net", c.Name+" read-fault "+inj.Error(), int64(c.ID))
 			return 0, inj
 		}
+		// a deadline that has passed fails the call even when data is buffered (as the runtime's poller does)
+		if dl := c.deadline(true); !dl.IsZero() && !time.Now().Before(dl) {
+			rec("net", c.Name+" read timeout", int64(c.ID))
+			return 0, timeoutError("read", c.Kind)
+		}
 		h := c.r
 		h.mu.Lock()
 		if h.reset {
@@ -392,6 +399,17 @@ func (c *Conn) Write(p []byte) (int, error) {
 		}
 		c.mu.Unlock()
 		return 0, f.WriteErr
+	}
+	if dl := c.deadline(false); !dl.IsZero() && !time.Now().Before(dl) {
+		// a deadline that has passed fails the call even when there is room
+		rec("net", c.Name+" write timeout", int64(c.ID), 0)
+		dsim.Probe("fault:write-timeout")
+		c.mu.Lock()
+		if c.FaultAt == 0 {
+			c.FaultAt = dsim.Now() + 1
+		}
+		c.mu.Unlock()
+		return 0, timeoutError("write", c.Kind)
 	}
 	blockFault := f.WriteBlockAt > 0 && k >= f.WriteBlockAt
 	written := 0
@@ -608,6 +626,7 @@ func (c *Conn) SetReadDeadline(t time.Time) error {
 		d = int64(time.Until(t))
 	}
 	rec("net", c.Name+" set-read-deadline", int64(c.ID), d, 0, nodeFlag(c.NodeSide))
+	poke(c.r.rwake) // a read that is already blocked observes the new deadline
 	return nil
 }
 
@@ -623,6 +642,7 @@ func (c *Conn) SetWriteDeadline(t time.Time) error {
 		d = int64(time.Until(t))
 	}
 	rec("net", c.Name+" set-write-deadline", int64(c.ID), d, 0, nodeFlag(c.NodeSide))
+	poke(c.w.wwake) // a write that is already blocked observes the new deadline
 	return nil
 }
 
@@ -980,6 +1000,9 @@ func SerialOpen(device string, mode *serial.Mode) (serial.Port, error) {
 		dsim.Probe("fault:serial-open-fail")
 		rec("net", "serial open fail "+device, int64(n))
 		return nil, fail
+	}
+	if lat := w.SerialOpenLatency; lat > 0 {
+		dsim.Sleep(lat) // opening a device takes a while: things happen meanwhile
 	}
 	node, peer := w.newPair("serial", w.SendBuf)
 	node.Name = fmt.Sprintf("serial#%d.node", node.ID)
